@@ -124,6 +124,46 @@ fn gen_frames(r: &mut Rng, codec: &str, algo: &str) -> Vec<String> {
     out
 }
 
+/// What the property prescribes for the items a subscriber yields, computed here without the subscriber: a payload that
+/// does not decompress is one error; a `Message` payload is decoded; a `BatchMessage` payload that is no well-formed
+/// batch is one error, otherwise each member is decoded (an undecodable member is an error of its own). Returns the items
+/// up to the first frame a subscriber does not expect, and whether there was one.
+fn expected_items(codec: &str, frames: &[&str]) -> (Vec<String>, bool) {
+    fn decode1(codec: &str, b: &[u8]) -> String {
+        match codec {
+            "string" => match std::str::from_utf8(b) { Ok(_) => format!("ok:{}", hx(b)), Err(_) => "err".into() },
+            "bytes" => format!("ok:{}", hx(b)),
+            _ => match bincode::deserialize::<(u32, String)>(b) { Ok(v) => format!("ok:{}", hx(&bincode::serialize(&v).unwrap())), Err(_) => "err".into() },
+        }
+    }
+    fn unbatch(b: &[u8]) -> Option<Vec<Vec<u8>>> {
+        if b.len() < 8 { return None; }
+        let n = u64::from_be_bytes(b[..8].try_into().unwrap());
+        let (mut i, mut out) = (8usize, vec![]);
+        for _ in 0..n {
+            if b.len() - i < 8 { return None; }
+            let l = u64::from_be_bytes(b[i..i + 8].try_into().unwrap());
+            i += 8;
+            if ((b.len() - i) as u64) < l { return None; }
+            out.push(b[i..i + l as usize].to_vec());
+            i += l as usize;
+        }
+        Some(out)
+    }
+    let mut out = vec![];
+    for f in frames {
+        let (kind, p) = if let Some(p) = f.strip_prefix("M=") { ('M', p) } else if let Some(p) = f.strip_prefix("B=") { ('B', p) } else { return (out, true) };
+        // `<wire>><plain>` / `<wire>>!` with a decompressor, `<wire>` without
+        let plain = match p.split_once('>') { Some((_, "!")) => None, Some((_, d)) => Some(unhx(d)), None => Some(unhx(p)) };
+        match (kind, plain) {
+            (_, None) => out.push("err".to_string()),
+            ('M', Some(b)) => out.push(decode1(codec, &b)),
+            (_, Some(b)) => match unbatch(&b) { None => out.push("err".to_string()), Some(ms) => for m in ms { out.push(decode1(codec, &m)); } },
+        }
+    }
+    (out, false)
+}
+
 /// annotate payloads with what the library's decompressor makes of them
 fn annotate(tok: &str, algo: &str) -> String {
     if algo == "-" || !(tok.starts_with("M=") || tok.starts_with("B=")) { return tok.to_string(); }
@@ -228,7 +268,14 @@ pub fn run(cfg: &Cfg) {
                 let m = if l.contains("PANIC") { Err("C06: the subscriber panicked on what a publisher sent".to_string()) }
                     else if l.starts_with("ABORT") { Err("C06: the consuming process was aborted (stack overflow / allocation failure) by frames a publisher sent".to_string()) }
                     else if l.starts_with("TIMEOUT") { Err("C06: the subscriber did not come to rest".to_string()) }
-                    else { Ok(()) };
+                    else {
+                        // the values: what decompress / unbatch / decode make of each frame, item by item (a batch of 30 000 empty
+                        // batches is left to the comparison with the model)
+                        let (want, cut) = if big { (vec![], true) } else { expected_items(t[1], &fr) };
+                        let got: Vec<&str> = l.split(' ').next().unwrap_or("-").split(',').filter(|x| *x != "-").collect();
+                        let same = if cut { got.len() >= want.len() && got[..want.len()].iter().zip(want.iter()).all(|(a, b)| a == b) } else { got.len() == want.len() && got.iter().zip(want.iter()).all(|(a, b)| a == b) };
+                        if same { Ok(()) } else { Err(format!("C03/C14: the subscriber yielded [{}] where decompress / unbatch / decode of the frames it was sent give [{}]{}", got.join(","), want.join(","), if cut { " (then a frame it does not expect)" } else { "" })) }
+                    };
                 (l, m)
             }
         };
